@@ -847,7 +847,7 @@ class Interp:
             self.store_subscript(target, v, env)
         elif isinstance(target, ast.Attribute):
             base = self.eval(target.value, env)
-            self.event("attr-store", target, (repr(base), target.attr, v))
+            self.event("attr-store", target, (repr(base), target.attr, v, base))
             if isinstance(base, Opaque):
                 base.attrs[target.attr] = v
         elif isinstance(target, ast.Starred):
